@@ -537,7 +537,7 @@ pub async fn run(args: &Args) {
         "generated valid messages per codec (HTTP request/response head, SOCKS4/4a/5 negotiation+request, SOCKS replies, 1-3 RPFM stream frames) x cut sets (ALL 2^(n-1) for n<=14, else every single cut, sampled pairs, one-byte-at-a-time, random sets; each with and without Pending between segments) x trailing payload; every truncation offset; plus whole CONNECT handshake + relay on a real Context. distinct = distinct (codec, message, cut set, pending) with >= 1 cut, and (codec, message, truncation offset)",
     );
     let mut rng = Rng::new(args.seed);
-    let per = args.n(500, 8000);
+    let per = args.n(500, 3000);
     let gens: [fn(&mut Rng) -> Msg; 5] = [gen_http_request, gen_http_response, gen_socks_request, gen_socks_response, gen_frames];
     let seeds: Vec<u64> = (0..n_workers()).map(|_| rng.next()).collect();
     let thorough = args.thorough;
